@@ -323,3 +323,73 @@ u = getattr(pi, W["cls"])(dt=dt, **kw)
 d = pi.EuropeanOption(u, maturity=k * dt); d.simulate(n_paths=1)
 result = {"got": d.ul().spot.size(1), "ref": k + 1}
 '''
+
+
+def derived_series_ob():
+    """volatility / variance exposed by the primaries follow the CURRENT buffers (no stale derived data)."""
+    def check():
+        t0 = time.time()
+        import torch
+        import pfhedge.instruments as pi
+        from pfv.torchlib.tensor import Tensor
+        N_, T_ = tm.var('N', 'I'), tm.var('T', 'I')
+        n, j = tm.var('n', 'I'), tm.var('j', 'I')
+
+        def run(c):
+            out = {}
+            for cls, kw in ((pi.HestonStock, {}), (pi.RoughBergomiStock, {}), (pi.BrownianStock, {'sigma': SReal(tm.var('sg'))}), (pi.MertonJumpStock, {'sigma': SReal(tm.var('sg'))}), (pi.KouJumpStock, {'sigma': SReal(tm.var('sg'))})):
+                inst = cls(dtype=torch.float64, **kw)
+                names = ['spot', 'variance'] if cls in (pi.HestonStock, pi.RoughBergomiStock) else ['spot']
+                for b in names:
+                    inst.register_buffer(b, Tensor.input('old_' + b, (N_, T_), torch.float64))
+                inst.volatility, inst.variance            # read once on the old data
+                for b in names:
+                    inst.register_buffer(b, Tensor.input('new_' + b, (N_, T_), torch.float64))
+                out[cls.__name__] = (inst.volatility, inst.variance, names)
+            lv = pi.LocalVolatilityStock(lambda t_, s: s, dtype=torch.float64)
+            for b in ('spot', 'volatility'):
+                lv.register_buffer(b, Tensor.input('old_' + b, (N_, T_), torch.float64))
+            lv.variance
+            lv.register_buffer('volatility', Tensor.input('new_volatility', (N_, T_), torch.float64))
+            out['LocalVolatilityStock'] = (lv.volatility, lv.variance, ['volatility'])
+            return out
+        p = explore(run, [tm.ge(N_, tm.IONE), tm.ge(T_, tm.IONE)], max_paths=4)[0]
+        if p.outcome() != 'returns':
+            return Verdict('unknown', 'engine', time.time() - t0, str((p.outcome(), str(p.exception)[:200], p.traceback[-400:])))
+        for cls, (vol, var, names) in p.result.items():
+            if cls in ('HestonStock', 'RoughBergomiStock'):
+                want_vol = tm.app('sqrt', tm.tmax(tm.sel('new_variance', n, j), tm.ZERO))
+                want_var = tm.sel('new_variance', n, j)
+            elif cls == 'LocalVolatilityStock':
+                want_vol = tm.sel('new_volatility', n, j)
+                want_var = tm.powt(want_vol, tm.const(2, 'I'))
+            else:
+                want_vol = tm.var('sg')
+                want_var = tm.powt(tm.var('sg'), tm.const(2, 'I'))
+            for (nm, got, want) in (('volatility', vol, want_vol), ('variance', var, want_var)):
+                r = smt.prove([], tm.eq(got.at((n, j)), want), timeout_ms=5000)
+                if r.status != 'unsat' or tuple(got._shape) != (N_, T_):
+                    return Verdict('refuted', 'z3', time.time() - t0, '%s.%s after re-simulation = %s, expected %s' % (cls, nm, tm.show(got.at((n, j)))[:150], tm.show(want)[:150]),
+                                   witness={'cls': cls, 'series': nm}, replay=_replay_derived())
+        return Verdict('proved', 'z3', time.time() - t0, '', sample={'claim': 'volatility = sqrt(max(variance,0)) / sigma of the CURRENT buffers, same shape', 'classes': list(p.result)})
+    return Obligation('INS/derived-series', 'post', 'pfhedge.instruments.primary.heston.HestonStock.volatility', check, ['C11', 'C16'],
+                      clause='volatility and variance of every primary are derived from its current buffers: volatility = sqrt(variance) (Heston, rough Bergomi), variance = volatility^2 (local vol), constants sigma / sigma^2 otherwise; nothing stale after re-simulation')
+
+
+DERIVED_REPLAY = '''
+import pfhedge.instruments as pi
+bad = []
+torch.manual_seed(0)
+for cls in (pi.HestonStock, pi.RoughBergomiStock):
+    p = cls(dtype=torch.float64); p.simulate(n_paths=3, time_horizon=0.05); p.volatility; p.simulate(n_paths=4, time_horizon=0.03)
+    if p.volatility.shape != p.variance.shape or not torch.allclose(p.volatility, p.variance.clamp(min=0).sqrt()): bad.append((cls.__name__, "stale volatility"))
+    p.to(torch.float32)
+    if p.volatility.dtype != torch.float32: bad.append((cls.__name__, "dtype"))
+result = {"got": [str(b) for b in bad], "ref": []}
+'''
+
+
+def _replay_derived():
+    r = real_exec(DERIVED_REPLAY, {}, timeout=300)
+    ok = r.get('ok') and r['result']['got'] == []
+    return {'real': r, 'confirmed': not ok}
